@@ -212,3 +212,64 @@ func H_base_after() {
 	}
 	symx.Reach("end")
 }
+
+// H_base_autoload: code of the base VM names a class that only exists as a FILE below a registered
+// namespace; each request autoloads it into its own temporary VM. Between the two requests the
+// file changes (hot reload): the second request runs the new class, not the first request's.
+func H_base_autoload() {
+	form := symx.Choose("form", 3)
+	defer symx.VCleanup()
+	symx.VReset()
+	root := symx.VRoot()
+	bp := parser.NewParser()
+	base := runtime.NewVM(bp)
+	base.SetThrowControl(func(acl data.Control) {})
+	symx.VFile(root+"/app/Foo.php", "<?php\nnamespace App;\nclass Foo { }\n")
+	base.AddNamespace("App", root+"/app")
+	data.WriteOutput = func(string) {}
+	boot := []string{
+		"function mk() { $o = new \\App\\Foo(); return $o->v; }",
+		"function mk() { return \\App\\Foo::make(); }",
+		"function mk() { return \\App\\Foo::$s; }",
+	}[form]
+	prog, ctl := bp.ParseString(boot, "boot.zy")
+	symx.Assert(ctl == nil && prog != nil, "boot script parses")
+	if ctl != nil || prog == nil {
+		return
+	}
+	prog.GetValue(base.CreateContext(bp.GetVariables()))
+	req := func(version string) (int, bool) {
+		symx.VFile(root+"/app/Foo.php", "<?php\nnamespace App;\nclass Foo { public $v = "+version+"; public static $s = "+version+"; static function make() { return "+version+"; } }\n")
+		t := runtime.NewTempVM(base).(*runtime.TempVM)
+		p := t.PrepareParse(bp)
+		prog, ctl := p.ParseString("$r = mk();", "req.zy")
+		if ctl != nil || prog == nil {
+			return 0, false
+		}
+		vars := p.GetVariables()
+		ctx := t.CreateContext(vars)
+		if _, rctl := prog.GetValue(ctx); rctl != nil {
+			return 0, false
+		}
+		for _, v := range vars {
+			if v.GetName() == "r" {
+				val, _ := v.GetValue(ctx)
+				if iv, ok := val.(*data.IntValue); ok {
+					return iv.Value, true
+				}
+			}
+		}
+		return 0, false
+	}
+	r1, ok1 := req("1")
+	r2, ok2 := req("2")
+	symx.Assert(ok1 && ok2, "both requests run")
+	if !ok1 || !ok2 {
+		return
+	}
+	symx.Assert(r1 == 1, "first request runs the class as it is on disk")
+	symx.Assert(r2 == 2, "second request autoloads the class again into its own VM and runs the edited file")
+	_, leaked := base.GetClass("App\\Foo")
+	symx.Assert(!leaked, "the autoloaded class is not registered on the base VM")
+	symx.Reach("end")
+}
